@@ -32,6 +32,7 @@ RULE = ('decision table = 24 callable kinds x 5 argument shapes x 4 option value
 ASSUMPTIONS = ['"was it converted" is observed as: _convert_actual was entered for the target and returned', 'warnings are counted at ag_logging.warning']
 
 SRC = '''
+import collections
 import functools
 
 COUNTS = []
@@ -94,6 +95,15 @@ class K(object):
         return ('call', a, b, rest, sorted(kw.items()))
 
 
+class UL(collections.UserList):
+    # overrides a method that the allow-listed base class (module collections) defines as well
+    def count(self, a, b=2, *rest, **kw):
+        COUNTS.append('ulcount')
+        if a:
+            a = a + 0
+        return ('ulcount', a, b, rest, sorted(kw.items()))
+
+
 class M(object):
     def __init__(self):
         self.__count_ = 5            # name-mangled (two leading underscores, ONE trailing underscore)
@@ -128,12 +138,14 @@ KINDS = ('function', 'lambda', 'bound_method', 'unbound_method', 'classmethod', 
          # the same functools.wraps decorator (one code object): around an allow-listed function / around a user function
          'c_method_builtin_name', 'local_generator', 'wraps_allowlisted', 'wraps_user',
          # a method using a name-mangled attribute (rejected by the feature check like the local generator)
-         'mangled_method')
+         'mangled_method',
+         # user override of a method that an allow-listed base class also defines: user code like any other
+         'override_of_allowlisted_base')
 SHAPES = ('args', 'kwargs_none', 'kwargs_empty', 'kwargs', 'star')
 OPTS = ((True, False, True), (False, False, False), (True, True, True), (False, True, True))   # (recursive, user_requested, icuc)
 STATUSES = ('UNSPECIFIED', 'ENABLED', 'DISABLED')
 CONVERTIBLE = ('function', 'lambda', 'bound_method', 'unbound_method', 'classmethod', 'staticmethod', 'callable_object', 'partial',
-               'nested_partial', 'wraps_user')
+               'nested_partial', 'wraps_user', 'override_of_allowlisted_base')
 NO_EXTRA_ARGS = ('builtin', 'builtin_kw', 'c_function', 'lru_cache', 'namedtuple', 'allowlisted_module', 'c_method_builtin_name',
                  'wraps_allowlisted')
 _S = {'tier': 'quick'}
@@ -328,6 +340,8 @@ def make_callable(kind):
     return mod.localgen, 'localgen'
   if kind == 'mangled_method':
     return mod.M().meth, 'mmeth'
+  if kind == 'override_of_allowlisted_base':
+    return mod.UL([1]).count, 'ulcount'
   if kind == 'wraps_allowlisted':
     import copy
     return mod.passthrough(copy.copy), None
